@@ -3,18 +3,22 @@
 TSIGNAL, thread create / join, reference count operation, iterator call, rfbCloseClient /
 rfbClientConnectionGone call, notify-pipe write, `return` / `break` / `continue`, and the stores / tests
 of `cl->state` and `cl->sock` that steer the threads (also through other pointers: `*->...`).  It is the skeleton of the code WITH
-fixes/C13-01 .. C13-05 applied.  `tools/consts/c13.py` regenerates the same list from the working tree
+fixes/C13-01 .. C13-05 applied, plus two later repairs that add tokens without changing the
+synchronisation structure: b9d189d (clientInput's WebSocket drain loop re-reads the client's own
+`cl->state`: the input thread stops processing buffered input once the client is marked for shutdown;
+the model's input thread takes no step on behalf of a client in that state anyway) and 53e39a2
+(rfbNewFramebuffer frees a library-derived rich cursor image while it holds cursorMutex).  `tools/consts/c13.py` regenerates the same list from the working tree
 on every run (`VncModel.Gen.C13.skeleton`); `Props.C13.skeleton_matches` compares the two. -/
 namespace VncModel.Threads
 
 def expectedSkeleton : List (String × List String) := [
   ("clientOutput", ["*->sock==RFB_INVALID_SOCKET", "cl->state==RFB_SHUTDOWN", "return", "cl->state!=RFB_NORMAL", "continue", "LOCK updateMutex", "cl->state==RFB_SHUTDOWN", "UNLOCK updateMutex", "return", "WAIT updateCond updateMutex", "UNLOCK updateMutex", "LOCK updateMutex", "UNLOCK updateMutex", "rfbIncrClientRef", "LOCK sendMutex", "UNLOCK sendMutex", "rfbDecrClientRef", "return"]),
-  ("clientInput", ["pthread_create", "cl->state!=RFB_SHUTDOWN", "*->sock==RFB_INVALID_SOCKET", "break", "break", "continue", "break", "LOCK updateMutex", "cl->state=RFB_SHUTDOWN", "TSIGNAL updateCond", "UNLOCK updateMutex", "THREAD_JOIN", "LOCK outputMutex", "cl->sock=RFB_INVALID_SOCKET", "UNLOCK outputMutex", "rfbClientConnectionGone", "return"]),
+  ("clientInput", ["pthread_create", "cl->state!=RFB_SHUTDOWN", "*->sock==RFB_INVALID_SOCKET", "break", "break", "continue", "break", "cl->state!=RFB_SHUTDOWN", "LOCK updateMutex", "cl->state=RFB_SHUTDOWN", "TSIGNAL updateCond", "UNLOCK updateMutex", "THREAD_JOIN", "LOCK outputMutex", "cl->sock=RFB_INVALID_SOCKET", "UNLOCK outputMutex", "rfbClientConnectionGone", "return"]),
   ("listenerRun", ["return", "continue", "rfbNewClient", "rfbStartOnHoldClient", "return"]),
   ("rfbStartOnHoldClient", ["pthread_create"]),
   ("rfbMarkRegionAsModified", ["rfbGetClientIterator", "rfbClientIteratorNext", "LOCK updateMutex", "TSIGNAL updateCond", "UNLOCK updateMutex", "rfbReleaseClientIterator"]),
   ("rfbScheduleCopyRegion", ["rfbGetClientIterator", "rfbClientIteratorNext", "LOCK updateMutex", "TSIGNAL updateCond", "UNLOCK updateMutex", "rfbReleaseClientIterator"]),
-  ("rfbNewFramebuffer", ["rfbGetClientIterator", "rfbClientIteratorNext", "break", "rfbIncrClientRef", "LOCK sendMutex", "rfbReleaseClientIterator", "LOCK cursorMutex", "LOCK updateMutex", "TSIGNAL updateCond", "UNLOCK updateMutex", "UNLOCK sendMutex", "rfbDecrClientRef", "free", "UNLOCK cursorMutex"]),
+  ("rfbNewFramebuffer", ["rfbGetClientIterator", "rfbClientIteratorNext", "break", "rfbIncrClientRef", "LOCK sendMutex", "rfbReleaseClientIterator", "LOCK cursorMutex", "free", "LOCK updateMutex", "TSIGNAL updateCond", "UNLOCK updateMutex", "UNLOCK sendMutex", "rfbDecrClientRef", "free", "UNLOCK cursorMutex"]),
   ("rfbShutdownServer", ["rfbShutdownSockets", "pipewrite listener", "pthread_join", "rfbGetClientIteratorWithClosed", "rfbClientIteratorNext", "rfbCloseClient", "rfbClientIteratorNext", "pthread_join", "rfbClientConnectionGone", "rfbClientConnectionGone", "rfbReleaseClientIterator"]),
   ("rfbScreenCleanup", ["rfbGetClientIteratorWithClosed", "rfbClientIteratorNext", "rfbClientIteratorNext", "rfbClientConnectionGone", "rfbReleaseClientIterator", "free", "TINI_MUTEX cursorMutex", "free", "free", "free"]),
   ("rfbRunEventLoop", ["pthread_create", "return", "return"]),
